@@ -4,7 +4,9 @@ import TrustfallModel.Model.PyValue
 Driver commands for `PyValue` (C27).
 
 Python objects: `none`, `(pb 0|1)`, `(pi <int>)`, `(pf <key>)`, `pnan`/`pinf`/`pninf`, `(ps <hex>)`,
-`(pl …)`, `other`/`(other <what>)`.
+`(pl …)`, `other`/`(other <what>)`, `(sub <how> <py>)` = instance of a subclass of the built-in
+type of `<py>` (str / int / float / list subclass, Enum mixins), classified as its base kind;
+`(sub tuple (pl …))` = a tuple, which is not a list (`other`).
 
 * `(py-from <py>)` → `(ok <value>)` | `(err nonfinite|mixed|unsupported)`   — `fromPy`
 * `(py-rt <py>)`   → `(ok <py>)` | `(panic <kind>)`                          — `fromPy` then `toPy`
@@ -25,6 +27,12 @@ def toPyObj : Sexp → Option Py
   | atom "pninf" => some .floatNonFinite
   | atom "other" => some .other
   | list [atom "other", atom _] => some .other
+  -- an instance of a subclass of a built-in type is classified the way the extractors classify it:
+  -- `extract::<i64/u64/f64/String>` and `cast::<PyList>` accept subclasses (`PyLong_Check`,
+  -- `PyFloat_Check`, `PyUnicode_Check`, `PyList_Check` are subclass checks), `is_instance_of::<PyInt>`
+  -- is true for int subclasses; a tuple is not a list
+  | list [atom "sub", atom "tuple", _] => some .other
+  | list [atom "sub", atom _, p] => toPyObj p
   | list [atom "pb", atom x] => some (.bool (x == "1"))
   | list [atom "pi", atom x] => Py.int <$> x.toInt?
   | list [atom "pf", atom x] => Py.float <$> x.toInt?
